@@ -80,6 +80,12 @@ def _solve_one(ob, timeout_ms, seed):
             s.add(z3.Not(ob.goal))
             if s.check() == z3.unsat:
                 return {"verdict": "proved", "time": time.time() - t_start, "backend": f"z3 (quantifier-free hypotheses, cone depth {depth})"}
+        if _has_strings(rel + [ob.goal]):
+            # z3's sequence solver is unstable on word equations with optional pieces; cvc5 decides them (child process under a hard kill)
+            r5 = _cvc5(ob, max(1.0, timeout_ms * 0.2 / 1000.0), hyps=rel, only_unsat=True)
+            if r5 is not None:
+                r5["time"] = time.time() - t_start
+                return r5
         portfolio = PORTFOLIO[2:]
     if ground:
         # cone of influence: hypotheses that (transitively) share a constant with the goal; fewer hypotheses can only
@@ -143,7 +149,7 @@ def _solve_one(ob, timeout_ms, seed):
     return last
 
 
-def _cvc5(ob, timeout_s):
+def _cvc5(ob, timeout_s, hyps=None, only_unsat=False):
     """Ground string queries z3 left open: the cvc5 CLI in a child process under a hard kill (it ignores --tlimit)."""
     import subprocess
     import tempfile
@@ -151,8 +157,13 @@ def _cvc5(ob, timeout_s):
     if not os.path.exists("/usr/bin/cvc5"):
         return None
     s = z3.Solver()
-    for h in ob.hyps:
+    for h in ob.hyps if hyps is None else hyps:
+        if _mentions_last_index(h):
+            continue  # cvc5 1.0.3 has no last-index-of: the hypothesis is dropped (sound when proving; a `sat` answer is then not used)
         s.add(h)
+    if _mentions_last_index(ob.goal):
+        return None
+    only_unsat = only_unsat or any(_mentions_last_index(h) for h in (ob.hyps if hyps is None else hyps))
     s.add(z3.Not(ob.goal))
     from .values import VBytes, VInt, VStr
 
@@ -175,7 +186,9 @@ def _cvc5(ob, timeout_s):
     if not out:
         return None
     if out[0] == "unsat":
-        return {"verdict": "proved", "backend": "cvc5 1.0.3 --strings-exp"}
+        return {"verdict": "proved", "backend": "cvc5 1.0.3 --strings-exp" + (" (quantifier-free hypotheses)" if hyps is not None else "")}
+    if only_unsat:
+        return None
     if out[0] == "sat":
         mv = {}
         for (k, v), line in zip(names.items(), out[1:]):
@@ -248,6 +261,36 @@ def _relevant(hyps, goal, depth=99):
             break
         sym |= new
     return [h for (h, _), c in zip(hs, chosen) if c]
+
+
+def _mentions_last_index(e):
+    seen = set()
+    stack = [e]
+    while stack:
+        x = stack.pop()
+        k = x.get_id()
+        if k in seen:
+            continue
+        seen.add(k)
+        if z3.is_app(x) and x.decl().kind() == z3.Z3_OP_SEQ_LAST_INDEX:
+            return True
+        stack.extend(x.children())
+    return False
+
+
+def _has_strings(exprs):
+    seen = set()
+    stack = list(exprs)
+    while stack:
+        e = stack.pop()
+        k = e.get_id()
+        if k in seen:
+            continue
+        seen.add(k)
+        if z3.is_app(e) and e.decl().kind() in (z3.Z3_OP_SEQ_CONCAT, z3.Z3_OP_SEQ_EXTRACT, z3.Z3_OP_SEQ_IN_RE, z3.Z3_OP_SEQ_CONTAINS, z3.Z3_OP_SEQ_AT, z3.Z3_OP_SEQ_PREFIX, z3.Z3_OP_SEQ_SUFFIX, z3.Z3_OP_SEQ_INDEX):
+            return True
+        stack.extend(e.children())
+    return False
 
 
 def _has_quantifier(exprs):
